@@ -407,6 +407,18 @@ func listsOf(m *ir.Module) string {
 
 func init() {
 	// all module ops take: <skeleton-token> <hex of the module text>; the harness uses the text.
+	// the printed form of the parsed module (hex), for comparison by external reference tools
+	reg("mod.print", func(a []string) string {
+		m, o := parseOutcome(string(unhexArg(a[0])))
+		if m == nil {
+			return o
+		}
+		out := safe(func([]string) string { return m.String() }, nil)
+		if out == "panic" {
+			return "print-panic"
+		}
+		return "ok " + hexOut([]byte(out))
+	})
 	reg("mod.outcome", func(a []string) string {
 		_, o := parseOutcome(string(unhexArg(a[1])))
 		return o
